@@ -40,6 +40,10 @@ def run(prog, rep):
     rep.part(pair, prog, rep)
     rep.part(stable, prog, rep)
     rep.expect_min("C05.stable", 1)
+    # "explicit None falls back to the stored value" - and ONLY None does: an optional value is never tested by truth (rules/falsy.py, package-wide)
+    from .falsy import rows as _falsy_rows
+    rep.part(_falsy_rows, prog, rep, "C05.optional")
+    rep.expect_min("C05.optional", 1)
     rep.expect_min("C05.paramflow", 17)
     rep.expect_min("C05.slots", 20)
     rep.expect_min("C05.siblings", 70)
